@@ -27,6 +27,10 @@ def gen_inputs(ctx):
         ks.append((v % N or 1, "flag-like"))
     for _ in range(4 if q else 30):
         ks.append(((rng.randrange(1, N) >> 8 << 8) | 0x01, "flag-like"))
+    # scalars whose FIRST or LAST byte is an ASCII / Latin-1 blank, NUL-adjacent or 0xff (trimming / text handling of raw bytes)
+    for b in (0x09, 0x0a, 0x0b, 0x0c, 0x0d, 0x20, 0x85, 0xa0, 0x1c, 0xff, 0x30, 0x78):
+        ks.append((((rng.randrange(1, N >> 8)) << 8) | b, "tail-byte-%02x" % b))
+        ks.append(((b << 248) | rng.randrange(1 << 247), "head-byte-%02x" % b))
     ks = [(k, c) for k, c in ks if 0 < k < N]
     for k, kc in ks:
         out.append(("PubOf", b32(k), ("pubof", kc)))
